@@ -848,7 +848,7 @@ bool DirectProtocolHandler::hasAnswer(symbol_t dstAddress) const {
     return false;
   }
   for (auto const &answer : m_answerByKey) {
-    if ((answer.first >> (8 * 6)) == dstAddress) {
+    if (((answer.first >> (8 * 6)) & 0xff) == dstAddress) {
       return true;
     }
   }
